@@ -374,3 +374,72 @@ func runOneHsClose(isApp bool, code uint64, plain bool, o *rlOut) {
 		o.fail("runloop/leak-or-panic", err.Error()+" :: "+desc)
 	}
 }
+
+// ---- idleTimeout / keepAliveInterval of spec-driven clients (ParamsCase through the real newUClientConnection)
+type rlSpecParams struct {
+	parrot, mode       string
+	tc, conf, kap, srv time.Duration
+}
+
+var rlSpecParamsTable = []rlSpecParams{
+	{"Chrome_115_IPv4", "adv", 4 * time.Second, 13 * time.Second, 6600 * time.Millisecond, 18 * time.Second}, // advertises less than it enforces
+	{"Chrome_115_IPv4", "", 0, 60 * time.Second, 45 * time.Second, 120 * time.Second},                          // the built-in parrot advertises 30 s
+	{"Chrome_146_IPv4", "adv", 20 * time.Second, 8 * time.Second, 30 * time.Second, 3 * time.Second},
+	{"Chrome_115_IPv4", "omit", 0, 9 * time.Second, 2 * time.Second, 14 * time.Second},
+	{"Chrome_115_IPv4", "suppress", 4 * time.Second, 9 * time.Second, 20 * time.Second, 22 * time.Second},
+}
+
+func runOneSpecParams(t rlSpecParams, o *rlOut) {
+	desc := fmt.Sprintf("specparams %+v", t)
+	err := inBubble(func() {
+		sp, err := specFor(t.parrot)
+		if err != nil || (t.mode != "" && !scDeriveIdleSpec(sp, t.mode, t.tc)) {
+			o.fail("runloop/spec", fmt.Sprintf("cannot derive the spec: %v: %s", err, desc))
+			return
+		}
+		e, err := newSimEnv(simOpts{RTT: 10 * time.Millisecond, Spec: sp,
+			ServerConf: &quic.Config{MaxIdleTimeout: t.srv}, ClientConf: &quic.Config{MaxIdleTimeout: t.conf, KeepAlivePeriod: t.kap}})
+		if err != nil {
+			o.fail("runloop/env", err.Error())
+			return
+		}
+		defer e.Close()
+		ctx, cancel := context.WithCancel(context.Background())
+		defer cancel()
+		go func() {
+			if conn, err := e.Ln.Accept(ctx); err == nil {
+				<-conn.Context().Done()
+			}
+		}()
+		cl, err := e.Dial(ctx)
+		if err != nil {
+			o.fail("runloop/dial", "handshake on a perfect path failed: "+err.Error()+": "+desc)
+			return
+		}
+		time.Sleep(100 * time.Millisecond)
+		synctest.Wait()
+		s := quic.VerifRunLoopSnapshot(cl)
+		o.emit(1, u.App("ParamsCase", u.Z(s.CfgMaxIdleTimeout), u.Z(s.PeerMaxIdleTimeout), u.Z(s.PeerAdvertisedIdle), u.Z(s.OwnAdvertisedIdle), u.Z(s.CfgKeepAlivePeriod), u.Z(s.IdleTimeout), u.Z(s.KeepAliveInterval)))
+		// monitor: with keep-alive on, the interval leaves half of the period the PEER will apply: the minimum of what
+		// the server advertised and what this client put on the wire (the server's view: its own value and the one it received)
+		srvConns := quic.VerifTransportConns(e.SrvTr)
+		o.count(fmt.Sprintf("specparams server conns=%d", len(srvConns)))
+		if len(srvConns) == 1 && t.kap != 0 {
+			sv := quic.VerifRunLoopSnapshot(srvConns[0])
+			peerApplies := time.Duration(sv.CfgMaxIdleTimeout)
+			if a := time.Duration(sv.PeerAdvertisedIdle); a > 0 && a < peerApplies {
+				peerApplies = a
+			}
+			o.count(fmt.Sprintf("specparams ka=%v serverApplies=%v (told %v)", time.Duration(s.KeepAliveInterval), peerApplies, time.Duration(sv.PeerAdvertisedIdle)))
+			if time.Duration(s.KeepAliveInterval) > peerApplies/2 {
+				o.fail("runloop/keep-alive-exceeds-advertised-idle", fmt.Sprintf("client keepAliveInterval=%v although the server was told %v and itself uses %v: %s",
+					time.Duration(s.KeepAliveInterval), time.Duration(sv.PeerAdvertisedIdle), time.Duration(sv.CfgMaxIdleTimeout), desc))
+			}
+		}
+		o.count("specparams mode=" + t.mode)
+		cl.CloseWithError(0, "")
+	})
+	if err != nil {
+		o.fail("runloop/leak-or-panic", err.Error()+" :: "+desc)
+	}
+}
